@@ -96,7 +96,9 @@ Definition loops : list (string * string * Z) :=
    ("parseOutputMode", "for _, field := range fields[1:]", 0%Z);
    ("substrChars", "for start = range s", 0%Z);
    ("substrLengthChars", "for start = range s", 0%Z);
-   ("substrLengthChars", "for end = range s[start:]", 0%Z)].
+   ("substrLengthChars", "for end = range s[start:]", 0%Z);
+   ("trimASCIISpace", "for start < len(s) && asciiSpace[s[start]] != 0", 0%Z);
+   ("trimASCIISpace", "for end > start && asciiSpace[s[end-1]] != 0", 0%Z)].
 Definition execute_sites : list (string * string) :=
   [("interp.executeAll", "p.program.Compiled.Begin");
    ("interp.executeAll", "p.program.Compiled.End");
